@@ -3,7 +3,7 @@
 import json, subprocess, sys, os
 
 REPO_HOOK_COMMITS = ["51ce9be"]
-# fix: commits in /repo (recorded in known_findings.jsonl): 50eaa9d 8c5e8ca 1ad039d a2fd658 3207f58 09c2b15 3b0dfee 8c772ad 5c48cf6 ad72c2e 591d6e3 297ac37 5c50f69 de60172 f501192 0d29461
+# fix: commits in /repo (recorded in known_findings.jsonl): 50eaa9d 8c5e8ca 1ad039d a2fd658 3207f58 09c2b15 3b0dfee 8c772ad 5c48cf6 ad72c2e 591d6e3 297ac37 5c50f69 de60172 f501192 0d29461 cf9e4d6 fb01c45 c296679 7b6d251
 
 ENV = "export GOFLAGS=-mod=mod GOPROXY=off GOSUMDB=off GOTOOLCHAIN=local; "
 
@@ -72,7 +72,7 @@ CHECKS = {
 }
 
 CHECKS["C20"] = ("tool+gen", T+"(a) every accepted file generated in base and source-map mode, outputs parsed without comments and compared structurally; " + G + "(b) flows restricted to Params/Results/Concurrency/plain Tasks generated in modifier and base mode, executed under identical scenarios (ok/error/panic per task) against the same reference interpreter",
-         "Source-map output structurally identical to base output on the whole corpus; modifier output compiled and agreed with the reference (hence with base) on every execution. Found F18 and F19 (inputs with //line comments; fixed).",
+         "Source-map output structurally identical to base output on the whole corpus; modifier output compiled and agreed with the reference (hence with base) on every execution. Found F18, F19 (inputs with //line comments) and F22-F25 (surroundings of a flow that one mode accepts and another fails on); all fixed.",
          "Modifier agreement is established through agreement of both modes with one reference under identical scenarios.", "3/C20")
 
 PENDING = {}
